@@ -326,7 +326,7 @@ func checkC07(tier string) int {
 				used = []string{"concurrent-goroutine"}
 				return &alt
 			}
-			if h%2 == 0 && len(base.Txs) > 0 {
+			if (h%2 == 0 || h%4 == 1) && len(base.Txs) > 0 {
 				// every transaction of the block passed this node's mempool check before the block arrived
 				alt.Inject["before:BeginBlock"] = append(alt.Inject["before:BeginBlock"], base.Txs...)
 				used = append(used, "before:BeginBlock")
